@@ -148,6 +148,8 @@ class WSSession:
 
     def server_bytes(self) -> bytes:
         """WebSocket-level bytes the server has sent after the handshake."""
+        if getattr(self, "_bytes_at_end", None) is not None:
+            return self._bytes_at_end
         if self.carrier == "h1":
             return self.conn.received()[self.hs_end:]
         assert self.client is not None
@@ -161,6 +163,9 @@ class WSSession:
         return {"ended": bool(st.get("ended")), "reset": st.get("reset")}
 
     async def end(self) -> None:
-        """The client goes away (EOF on the transport)."""
+        """The client goes away (EOF on the transport). What the server said is judged as of
+        now: nothing it owes the client may wait for the client to hang up."""
+        await self.pump()
+        self._bytes_at_end = self.server_bytes()
         self.conn.eof()
         await self.env.settle(50.0)
